@@ -81,8 +81,7 @@ Definition src_same (s s' : state) (o : nat) (src : option rloc) : Prop :=
 Definition same_for (s s' : state) (a : act) : Prop :=
   match a with
   | AInc o src => src_same s s' o src
-  | AUnref l | AUncount l | APoolObt l | AStore l _ => loc_same s s' l
-  | AIncSwap l o c src => loc_same s s' l /\ (c = true -> src_same s s' o src)
+  | ATake l | AUntag l | APoolObt l | AStore l _ => loc_same s s' l
   | ARel o _ => o_st (hobj s' o) = o_st (hobj s o) /\ o_mem (hobj s' o) = o_mem (hobj s o) /\ o_pooled (hobj s' o) = o_pooled (hobj s o)
   | _ => True
   end.
@@ -107,8 +106,6 @@ Proof.
   - eapply wloc_transfer; eauto.
   - eapply wloc_transfer; eauto.
   - destruct W; split; auto. eapply wloc_transfer; eauto.
-  - destruct H as (H1 & H2). destruct W as (W1 & W2 & W3). split; [eapply wloc_transfer; eauto|]. split; auto.
-    intros Hc. destruct (W3 Hc). split; auto. eapply src_transfer; eauto.
   - destruct H as (H1 & H2 & H3). destruct W as (W1 & W2 & W3). unfold is_releasing, processed_none, rel_index in *.
     rewrite H1, H2, H3. auto.
   - eapply wloc_transfer; eauto.
@@ -222,24 +219,20 @@ Proof.
     destruct (held_live K s u i q I Hu W3) as (Hlv & _). apply live_lt in Hlv.
     split; [|apply Hlen; auto].
     destruct (Hc q) as [Hx|(E & _)]; auto. exfalso. eapply private_untouched; eauto. }
-  assert (Lsrc : forall o src, In (AInc o src) (t_todo (thr s u)) \/ (exists l, In (AIncSwap l o true src) (t_todo (thr s u))) ->
-                 src <> None \/ In (AInc o None) (t_todo (thr s u)) ->
+  assert (Lsrc : forall o src, In (AInc o src) (t_todo (thr s u)) ->
                  src_ok s (t_stk (thr s u)) o src -> src_same s s' o src).
-  { intros o [[i|q j]|] Hin2 Hnn W; cbn [src_ok src_same] in *; auto.
+  { intros o [[i|q j]|] Hin2 W; cbn [src_ok src_same] in *; auto.
     - destruct W as (W1 & (i & W2)). destruct (Hm q) as [Hx|E]; [|rewrite E; auto].
       exfalso. eapply held_untouched_m; eauto.
-    - destruct W as (W1 & W2 & W3). destruct Hnn as [Hnn|Hnn]; [congruence|].
+    - destruct W as (W1 & W2 & W3).
       assert (Hnt : ~ touch_c s t o) by (eapply fresh_untouched; eauto).
       destruct (Hc o) as [Hx|(E1 & E2 & E3)]; [tauto|].
       split; [unfold is_live; rewrite E2; auto|]. split; auto.
       rewrite Hcount', (i_count K s I o). rewrite E1. f_equal.
       destruct (Hd o) as [Hx|E]; [tauto|].
       pose proof (wt_debts s t th' h' p' o Ht). fold s' in H. lia. }
-  destruct a; cbn in *; auto.
-  - apply Lsrc; auto. destruct src; [left; discriminate|right; auto].
+  destruct a; cbn [act_ok same_for] in *; auto.
   - destruct A; auto.
-  - destruct A as (A1 & A2 & A3). split; auto. intros Hcc. subst c. destruct (A3 eq_refl) as (A4 & A5). apply Lsrc; auto.
-    right. eexists; eauto.
   - destruct (releasing_untouched u o n Hu Hne Hin) as (N1 & N2).
     destruct (Hc o) as [Hx|(E1 & E2 & E3)]; [tauto|]. destruct (Hm o) as [Hx|E]; [tauto|]. auto.
 Qed.
